@@ -267,6 +267,7 @@ let str_vis (v : vis) : string = match v with
   | VResult r -> "ret " ^ str_result r
 
 let rec nat_of_int (i : int) : nat = if i <= 0 then O else S (nat_of_int (i - 1))
+let rec int_of_nat (n : nat) : int = match n with O -> 0 | S m -> 1 + int_of_nat m
 
 (* all (state, visible event) pairs the worker can reach next through silent steps;
    [ok] is the result of the system call if the visible event is one *)
@@ -292,31 +293,6 @@ let rec worker_next (z : sys2) (ok : bool) (depth : int) : (sys2 * vis) list =
       done;
       !res
 
-(* silent progress to a quiet worker with an empty queue; [] if a visible event would be next *)
-let rec worker_quiesce (z : sys2) (depth : int) : sys2 list =
-  if depth > 5000 then [] else
-  let w = z.z_w in
-  if not w.w_alive then [z]
-  else match w.w_batch with
-    | Some _ ->
-      (match zstep z (ZWork true) with
-       | None -> []
-       | Some (z', []) -> worker_quiesce z' (depth + 1)
-       | Some (_, _ :: _) -> [])
-    | None ->
-      if z.z_queue = [] then [z]
-      else begin
-        let qlen = List.length z.z_queue in
-        let res = ref [] in
-        for k = qlen downto 0 do
-          List.iter (fun nf ->
-              match zstep z (ZRecv (nat_of_int k, nf)) with
-              | None -> ()
-              | Some (z', _) -> res := !res @ worker_quiesce z' (depth + 1)) [true; false]
-        done;
-        !res
-      end
-
 (* run the worker to completion without faults, collecting nothing (used at drop/end) *)
 let rec worker_finish (z : sys2) (depth : int) : sys2 =
   if depth > 100000 then z else
@@ -338,126 +314,226 @@ let starts_with (s : string) (p : string) : bool =
 let after (s : string) (p : string) : string =
   String.trim (String.sub s (String.length p) (String.length s - String.length p))
 
-(* depth-first replay; returns the list of snapshot descriptions on success *)
-let rec replay (z : sys2) (evs : (int * string) list) (snaps : string list) : string list option =
-  match evs with
-  | [] -> Some (List.rev snaps)
-  | (i, e) :: rest ->
-    let fail msg = raise (Mismatch (Printf.sprintf "event %d `%s`: %s" i (if String.length e > 160 then String.sub e 0 160 else e) msg)) in
-    if not z.z_w.w_alive && not (starts_with e "c end") then Some (List.rev ("worker-dead" :: snaps))
-    else if starts_with e "c call " then begin
-      match p_op (after e "c call ") with
-      | Disk | Resident -> fail "unsupported op in trace"
-      | Op o ->
-        (match zstep z (ZCall o) with
-         | None -> fail "model: call not enabled (panic or call in progress)"
-         | Some (z', vs) ->
-           let want = (match vs with VResult r :: _ -> str_result r | _ -> "?") in
-           (* effects until the matching ret *)
-           let rec effs z rest =
-             match rest with
-             | (j, e2) :: rest' when starts_with e2 "c ret " ->
-               (* remaining effects must be silent *)
-               let rec drain z = match zstep z ZEff with
-                 | None -> z
-                 | Some (z', []) -> drain z'
-                 | Some (_, v :: _) -> raise (Mismatch (Printf.sprintf "event %d: model expects caller effect `%s` before the call returns" j (str_vis v))) in
-               let got = after e2 "c ret " in
-               if got <> want then raise (Mismatch (Printf.sprintf "event %d: result differs: implementation `%s` / model `%s`" j
-                                                       (if String.length got > 300 then String.sub got 0 300 else got)
-                                                       (if String.length want > 300 then String.sub want 0 300 else want)));
-               replay (drain z) rest' snaps
-             | (j, e2) :: rest' when starts_with e2 "c create " || starts_with e2 "c write " ->
-               (* next visible caller effect; silent sends before it are performed first *)
-               let rec step z = match zstep z ZEff with
-                 | None -> raise (Mismatch (Printf.sprintf "event %d `%s`: model has no pending caller effect" j e2))
-                 | Some (z', []) -> step z'
-                 | Some (z', v :: _) -> (z', v) in
-               let (z', v) = step z in
-               let obs = (if starts_with e2 "c create " then
-                            (match String.split_on_char ' ' e2 with [_; _; id; _] -> "create " ^ id | _ -> e2)
-                          else e2) in
-               let mv = (match v with VCreate _ -> str_vis v | _ -> str_vis v) in
-               if obs <> mv then raise (Mismatch (Printf.sprintf "event %d: caller effect differs: implementation `%s` / model `%s`" j obs mv));
-               effs z' rest'
-             | (j, e2) :: rest' when starts_with e2 "w " ->
-               (* a worker event while the call is in progress *)
-               let (z', _) = worker_event z j e2 in effs z' rest'
-             | (j, e2) :: _ -> raise (Mismatch (Printf.sprintf "event %d `%s`: unexpected inside a call" j e2))
-             | [] -> raise (Mismatch "log ends inside a call") in
-           effs z' rest)
-    end
-    else if starts_with e "w " then begin
-      (* backtracking over batch compositions *)
-      let ok = not (String.length e >= 4 && String.sub e (String.length e - 4) 4 = "fail") in
-      let cands = List.filter (fun (_, v) -> str_vis v = e) (worker_next z ok 0) in
-      if cands = [] then begin
-        let all = worker_next z ok 0 in
-        fail ("model worker cannot produce this event; it could: [" ^ String.concat " | " (List.map (fun (_, v) -> str_vis v) all) ^ "]")
-      end else begin
-        let rec try_all cs last_err = match cs with
-          | [] -> (match last_err with Some m -> raise (Mismatch m) | None -> None)
-          | (z', _) :: more ->
-            (try (match replay z' rest snaps with Some r -> Some r | None -> try_all more last_err)
-             with Mismatch m -> if more = [] then raise (Mismatch m) else try_all more (Some m)) in
-        try_all cands None
-      end
-    end
-    else if starts_with e "c snap " then begin
-      let obs = after e "c snap disk" in
-      let mine = disk_listing z.z_disk in
-      if String.trim obs <> mine then fail ("directory differs at snapshot: model " ^ (if String.length mine > 400 then String.sub mine 0 400 else mine))
-      else replay z rest (("snap " ^ synced_listing z.z_disk) :: snaps)
-    end
-    else if starts_with e "c idle" then begin
-      match worker_quiesce z 0 with
-      | [] -> fail "model worker still has a visible event to perform, the implementation is idle"
-      | z' :: _ -> replay z' rest snaps
-    end
-    else if starts_with e "c drop" then begin
-      match zstep z ZDrop with
-      | None -> fail "drop not enabled"
-      | Some (z', _) -> replay z' rest snaps
-    end
-    else if starts_with e "c end " then begin
-      let zf = worker_finish z 0 in
-      let obs = after e "c end disk" in
-      let mine = disk_listing zf.z_disk in
-      if z.z_w.w_alive && String.trim obs <> mine then fail ("final directory differs: model " ^ (if String.length mine > 400 then String.sub mine 0 400 else mine))
-      else Some (List.rev (("end " ^ synced_listing zf.z_disk) :: snaps))
-    end
-    else if starts_with e "c open " then begin
-      (* a new instance opens the directory: the previous one must be gone *)
-      let cfg = p_cfg (toks (after e "c open ")) in
-      let zf = worker_finish z 0 in
-      (* the outcome line follows the recovery's own system calls *)
-      let rec outcome l = match l with
-        | (_, e2) :: r when e2 = "c opened" || starts_with e2 "c openerr" || e2 = "c panic" -> (e2, r)
-        | _ :: r -> outcome r
-        | [] -> ("", []) in
-      let (res, rest') = outcome rest in
-      (match open_dir cfg zf.z_disk with
-       | OpenOk y ->
-         if res <> "c opened" then fail ("model opens the directory, implementation: " ^ res)
-         else replay (sys2_of y) rest' snaps
-       | OpenErr (er, _) ->
-         let want = "c openerr " ^ str_kind (err_kind er) in
-         if res <> want then fail ("model: " ^ want ^ ", implementation: " ^ res)
-         else Some (List.rev ("open-refused" :: snaps)))
-    end
-    else (* c openlock / c flock / c dropped / recovery system calls / skipped *)
-      replay z rest snaps
+(* Replay by subset construction: the set of all model states consistent with the log
+   so far is advanced event by event (the only nondeterminism is the composition of
+   worker batches); states are deduplicated by a summary key. *)
+let state_key (z : sys2) : string =
+  let w = z.z_w in
+  let b = match w.w_batch with
+    | None -> "-"
+    | Some b -> Printf.sprintf "%d/%s/%s/%b" (List.length b.b_writes)
+                  (match b.b_nf with None -> "n" | Some (WAppendFile _) -> "a" | Some (WRemove _) -> "r" | Some _ -> "w")
+                  (match b.b_pos with
+                   | BWrite i -> "W" ^ string_of_int (int_of_nat i) | BSyncOld -> "SO" | BSetEvict -> "SE" | BSyncNew -> "SN"
+                   | BCallbacks i -> "C" ^ string_of_int (int_of_nat i) | BPostponed -> "P" | BNonFlush -> "N"
+                   | BUnlink ids -> "U" ^ string_of_int (List.length ids) | BDone -> "D")
+                  b.b_ok in
+  Printf.sprintf "%d|%s|%d|%b|%b|%d|%d|%s|%s|%d" (List.length z.z_queue) b (List.length w.w_files) w.w_alive w.w_sync_failed
+    (List.length w.w_postponed) (List.length z.z_acks) (synced_listing z.z_disk)
+    (str_opair z.z_core.k_sm.m_cache.ch_evictable) (List.length z.z_todo)
 
-and worker_event (z : sys2) (i : int) (e : string) : sys2 * vis =
-  let ok = not (String.length e >= 4 && String.sub e (String.length e - 4) 4 = "fail") in
-  match List.filter (fun (_, v) -> str_vis v = e) (worker_next z ok 0) with
-  | c :: _ -> c
-  | [] -> raise (Mismatch (Printf.sprintf "event %d `%s`: model worker cannot produce this event" i e))
+(* silent progress to a quiet worker with an empty queue (all ways, deduplicated);
+   [] if a visible event would be next on every path *)
+let worker_quiesce (z : sys2) : sys2 list =
+  let seen = Hashtbl.create 64 in
+  let out = ref [] in
+  let rec go (z : sys2) (depth : int) : unit =
+    if depth > 100000 then () else
+    let k = state_key z in
+    if Hashtbl.mem seen k then () else begin
+      Hashtbl.add seen k ();
+      let w = z.z_w in
+      if not w.w_alive then out := z :: !out
+      else match w.w_batch with
+        | Some _ ->
+          (match zstep z (ZWork true) with
+           | None -> ()
+           | Some (z', []) -> go z' (depth + 1)
+           | Some (_, _ :: _) -> ())
+        | None ->
+          if z.z_queue = [] then out := z :: !out
+          else begin
+            let qlen = List.length z.z_queue in
+            for k = qlen downto 0 do
+              List.iter (fun nf ->
+                  match zstep z (ZRecv (nat_of_int k, nf)) with
+                  | None -> ()
+                  | Some (z', _) -> go z' (depth + 1)) [true; false]
+            done
+          end
+    end in
+  go z 0; List.rev !out
+
+(* The real worker never rests between two visible events: after each of them it runs
+   on (silent steps, and receiving the next batch if requests are queued) until it is
+   about to perform the next visible event or is idle. All ways of doing so: *)
+let advance (z : sys2) : sys2 list =
+  let seen = Hashtbl.create 16 in
+  let out = ref [] in
+  let rec go (z : sys2) (depth : int) : unit =
+    if depth > 100000 then () else
+    let k = state_key z in
+    if Hashtbl.mem seen k then () else begin
+      Hashtbl.add seen k ();
+      let w = z.z_w in
+      if not w.w_alive then out := z :: !out
+      else match w.w_batch with
+        | Some _ ->
+          (match zstep z (ZWork true) with
+           | None -> out := z :: !out
+           | Some (z', []) -> go z' (depth + 1)
+           | Some (_, _ :: _) -> out := z :: !out)      (* next step is visible: stop before it *)
+        | None ->
+          if z.z_queue = [] then out := z :: !out
+          else begin
+            let qlen = List.length z.z_queue in
+            for k = qlen downto 0 do
+              List.iter (fun nf ->
+                  match zstep z (ZRecv (nat_of_int k, nf)) with
+                  | None -> ()
+                  | Some (z', _) -> go z' (depth + 1)) [true; false]
+            done
+          end
+    end in
+  go z 0; List.rev !out
+
+let dedupe (l : (sys2 * string option) list) : (sys2 * string option) list =
+  let seen = Hashtbl.create 16 in
+  List.filter (fun (z, w) ->
+      let k = state_key z ^ (match w with None -> "" | Some x -> "#" ^ string_of_int (Hashtbl.hash x)) in
+      if Hashtbl.mem seen k then false else (Hashtbl.add seen k (); true)) l
+
+let trunc_str (s : string) (n : int) = if String.length s > n then String.sub s 0 n else s
+
+let replay_all (z0 : sys2) (evs : (int * string) list) : string =
+  let snaps = ref [] in
+  let frontier = ref [(z0, None)] in
+  let result = ref None in
+  let stop msg = result := Some msg; raise Exit in
+  (try
+     let pending_open = ref None in
+     List.iter (fun (i, e) ->
+         let fail msg = stop (Printf.sprintf "mismatch: event %d `%s`: %s" i (trunc_str e 160) msg) in
+         let alive = List.exists (fun (z, _) -> z.z_w.w_alive) !frontier in
+         if (not alive) && not (starts_with e "c end") then begin
+           snaps := "worker-dead" :: !snaps; raise Exit
+         end;
+         let reasons = ref [] in
+         let note r = if List.length !reasons < 3 then reasons := r :: !reasons in
+         let next =
+           if !pending_open <> None then begin
+             if e = "c opened" || starts_with e "c openerr" || e = "c panic" then begin
+               let cfg = (match !pending_open with Some c -> c | None -> assert false) in
+               pending_open := None;
+               List.concat_map (fun (z, _) ->
+                   let zf = worker_finish z 0 in
+                   match open_dir cfg zf.z_disk with
+                   | OpenOk y -> if e = "c opened" then [(sys2_of y, None)] else (note ("model opens the directory, implementation: " ^ e); [])
+                   | OpenErr (er, _) ->
+                     let want = "c openerr " ^ str_kind (err_kind er) in
+                     if e = want then (snaps := "open-refused" :: !snaps; []) else (note ("model: " ^ want); [])) !frontier
+             end else !frontier
+           end
+           else if starts_with e "c call " then begin
+             match p_op (after e "c call ") with
+             | Disk | Resident -> fail "unsupported op in trace"
+             | Op o ->
+               List.concat_map (fun (z, _) ->
+                   match zstep z (ZCall o) with
+                   | None -> note "model: call not enabled (panic or call in progress)"; []
+                   | Some (z', vs) ->
+                     let want = (match vs with VResult r :: _ -> str_result r | _ -> "?") in
+                     [(z', Some want)]) !frontier
+           end
+           else if starts_with e "c ret " then begin
+             let got = after e "c ret " in
+             List.concat_map (fun (z, w) ->
+                 match w with
+                 | Some want when want <> got ->
+                   note (Printf.sprintf "result differs: implementation `%s` / model `%s`" (trunc_str got 6000) (trunc_str want 6000)); []
+                 | _ ->
+                   let rec drain z = match zstep z ZEff with
+                     | None -> Some z
+                     | Some (z', []) -> drain z'
+                     | Some (_, v :: _) -> note ("model expects caller effect `" ^ str_vis v ^ "` before the call returns"); None in
+                   (match drain z with Some z' -> List.map (fun x -> (x, None)) (advance z') | None -> [])) !frontier
+           end
+           else if starts_with e "c create " || starts_with e "c write " then begin
+             let obs = (if starts_with e "c create " then
+                          (match String.split_on_char ' ' e with [_; _; id; _] -> "create " ^ id | _ -> e)
+                        else e) in
+             List.concat_map (fun (z, w) ->
+                 if w = None then [(z, w)]      (* recovery's own system calls: not part of a call *)
+                 else
+                   let rec step z = match zstep z ZEff with
+                     | None -> None
+                     | Some (z', []) -> step z'
+                     | Some (z', v :: _) -> Some (z', v) in
+                   match step z with
+                   | None -> note "model has no pending caller effect"; []
+                   | Some (z', v) ->
+                     if str_vis v = obs then [(z', w)] else (note ("caller effect differs: model `" ^ str_vis v ^ "`"); [])) !frontier
+           end
+           else if starts_with e "w " then begin
+             let ok = not (String.length e >= 4 && String.sub e (String.length e - 4) 4 = "fail") in
+             List.concat_map (fun (z, w) ->
+                 let all = worker_next z ok 0 in
+                 let cs = List.filter (fun (_, v) -> str_vis v = e) all in
+                 if cs = [] then note ("model worker could: [" ^ String.concat " | " (List.map (fun (_, v) -> str_vis v) all) ^ "]");
+                 List.concat_map (fun (z', _) -> List.map (fun x -> (x, w)) (advance z')) cs) !frontier
+           end
+           else if starts_with e "c snap " then begin
+             let obs = String.trim (after e "c snap disk") in
+             let keep = List.filter (fun (z, _) -> disk_listing z.z_disk = obs) !frontier in
+             (match keep with
+              | (z, _) :: _ -> snaps := ("snap " ^ synced_listing z.z_disk) :: !snaps
+              | [] -> (match !frontier with (z, _) :: _ -> note ("directory differs at snapshot: model " ^ trunc_str (disk_listing z.z_disk) 400) | [] -> ()));
+             keep
+           end
+           else if starts_with e "c idle" then
+             List.concat_map (fun (z, w) ->
+                 let zs = List.filter (fun x -> (not x.z_w.w_alive) || (x.z_w.w_batch = None && x.z_queue = [])) (advance z) in
+                 if zs = [] then note "model worker still has a visible event to perform, the implementation is idle";
+                 List.map (fun z' -> (z', w)) zs) !frontier
+           else if e = "c drop" then
+             List.concat_map (fun (z, w) -> match zstep z ZDrop with None -> (note "drop not enabled"; []) | Some (z', _) -> [(z', w)]) !frontier
+           else if starts_with e "c open " then begin
+             pending_open := Some (p_cfg (toks (after e "c open ")));
+             !frontier
+           end
+           else if starts_with e "c end " then begin
+             let obs = String.trim (after e "c end disk") in
+             let keep = List.filter (fun (z, _) ->
+                 let zf = worker_finish z 0 in (not z.z_w.w_alive) || disk_listing zf.z_disk = obs) !frontier in
+             (match keep with
+              | (z, _) :: _ -> snaps := ("end " ^ synced_listing (worker_finish z 0).z_disk) :: !snaps
+              | [] -> (match !frontier with (z, _) :: _ -> note ("final directory differs: model " ^ trunc_str (disk_listing (worker_finish z 0).z_disk) 400) | [] -> ()));
+             keep
+           end
+           else !frontier in
+         let next = dedupe next in
+         if Sys.getenv_opt "VERIF_TRACE_DEBUG" <> None then Printf.eprintf "%d %d %s\n%!" i (List.length next) (trunc_str e 40);
+         if next = [] && not (List.mem "open-refused" !snaps) then
+           fail (String.concat " || " (List.rev !reasons));
+         if next = [] then raise Exit;
+         frontier := next) evs
+   with Exit -> ());
+  match !result with
+  | Some m -> m
+  | None -> String.concat " ; " ("ok" :: List.rev !snaps)
 
 let do_trace (rest : string) : string =
   match split_on '|' rest with
   | [cfg; log] ->
-    let evs = List.filter (fun t -> t <> "") (split_on ';' log) in
+    (* events are separated by " ; " (a stat result contains bare ';') *)
+    let split_str (sep : string) (s : string) : string list =
+      let n = String.length sep and l = String.length s in
+      let rec go i start acc =
+        if i + n > l then List.rev (String.sub s start (l - start) :: acc)
+        else if String.sub s i n = sep then go (i + n) (i + n) (String.sub s start (i - start) :: acc)
+        else go (i + 1) start acc in
+      go 0 0 [] in
+    let evs = List.filter (fun t -> t <> "") (List.map String.trim (split_str " ; " log)) in
     (* skip the initial open: everything up to and including `c opened` *)
     let rec skip l = match l with
       | [] -> []
@@ -465,12 +541,7 @@ let do_trace (rest : string) : string =
     let evs = skip evs in
     (match zinit (p_cfg (toks cfg)) [] with
      | None -> "mismatch: model cannot open an empty directory"
-     | Some z ->
-       (try
-          (match replay z (List.mapi (fun i e -> (i, e)) evs) [] with
-           | Some snaps -> String.concat " ; " ("ok" :: snaps)
-           | None -> "mismatch: no batch composition explains the trace")
-        with Mismatch m -> "mismatch: " ^ m))
+     | Some z -> replay_all z (List.mapi (fun i e -> (i, e)) evs))
   | _ -> failwith "bad TRACE"
 
 let do_enc (rest : string) : string =
